@@ -111,6 +111,9 @@ func treeHashSetup(hashFunction HashFunction, node []uint8, index uint32, bdsSta
 }
 
 func genLeafWOTS(hashFunction HashFunction, leaf, skSeed []uint8, xmssParams *XMSSParams, pubSeed []uint8, lTreeAddr, otsAddr *[8]uint32) {
+	if verifLeaf(hashFunction, leaf, otsAddr) {
+		return
+	}
 	seed := make([]uint8, xmssParams.n)
 	pk := make([]uint8, xmssParams.wotsParams.keySize)
 
@@ -245,6 +248,7 @@ func xmssFastUpdate(hashFunction HashFunction, params *XMSSParams, sk []uint8, b
 			return -1
 		}
 
+		verifRound(1, j)
 		bdsRound(hashFunction, bdsState, j, skSeed, params, pubSeed, &otsAddr)
 		bdsTreeHashUpdate(hashFunction, bdsState, (params.h-params.k)>>1, skSeed, params, pubSeed, &otsAddr)
 	}
